@@ -31,6 +31,9 @@ RULE = (
     "(relativized and absolute); NSEC chains from sign_zone(rrset_signer=recorder) on generated zones with delegations, glue, "
     "nested cuts and ENTs. Distinct by (mode, type or shape class, boundary tags)."
 )
+RULE += " " + (
+    "Also: sorted(rdataset) is the canonical order; DS helpers with owners relative to an origin; ZONEMD with a published digest and its signature; the signing input relative to an origin above the signer."
+)
 ASSUMPTIONS = [
     "reference implementations in vlib/ref/dnssec.py and the canonical-form flags of the type table (RFC 4034 §6.2 minus NSEC)",
     "NSEC TTL and pre-existing NSEC/RRSIG records are outside the statement and not judged",
